@@ -995,7 +995,7 @@ fn main() {
     ctx.sample(json!({"collector": "try_collect_trusted_vec1", "container": "Array", "list_len": 4, "errors_at": [1, 3], "model": "Err(e1)"}));
     ctx.sample(json!({"buffer": "write_trust_iter", "buffer_len": 3, "iter_len": 1, "model": "[10,10,10] (broadcast)"}));
     let meta = Meta {
-        rule: "finite products: range(start,end,step) over integer grids (i32, i64, usize, u64; start,end in -B..=B, steps +-1..4) and the dyadic float grid (multiples of 1/4), linspace(start,end,n) n in 0..=9, full / empty, every collector (plain, trusted, with length, optional -> null-encoded, fallible plain / trusted with an error at every position and every pair of positions) on lists of length 0..=L into every container (instrumented, Vec, VecDeque, Array1, Polars chunked), write_trust_iter for every (buffer length, iterator length) pair on an instrumented buffer (exactly-once monitor) and on the real buffers. Oracles: the arithmetic progression strictly before end; n equally spaced points; the list itself; first error; all slots = iterator / broadcast or error and no write. Non-trivial = distinct parameter points. Also the same sequence through all 19 iterator shapes the library declares trusted (iterator-shapes): TrustedLen::len / is_empty, the collectors, writes into every container and caller-buffer layout (equal length, broadcast, mismatch; DESIGN 5.15). Round 8 (DESIGN 5.17): range-defaults - every combination of omitted / explicit start and step (i32, usize, f64, f32, every container) against the progression from 0 with step 1; linspace with the start omitted.".into(),
+        rule: "finite products: range(start,end,step) over integer grids (i32, i64, usize, u64; start,end in -B..=B, steps +-1..4) and the dyadic float grid (multiples of 1/4), linspace(start,end,n) n in 0..=9, full / empty, every collector (plain, trusted, with length, optional -> null-encoded, fallible plain / trusted with an error at every position and every pair of positions) on lists of length 0..=L into every container (instrumented, Vec, VecDeque, Array1, Polars chunked), write_trust_iter for every (buffer length, iterator length) pair on an instrumented buffer (exactly-once monitor) and on the real buffers. Oracles: the arithmetic progression strictly before end; n equally spaced points; the list itself; first error; all slots = iterator / broadcast or error and no write. Non-trivial = distinct parameter points. Also the same sequence through all 19 iterator shapes the library declares trusted (iterator-shapes): TrustedLen::len / is_empty, the collectors, writes into every container and caller-buffer layout (equal length, broadcast, mismatch; DESIGN 5.15). Round 8 (DESIGN 5.17): range-defaults - every combination of omitted / explicit start and step (i32, usize, f64, f32, every container) against the progression from 0 with step 1; linspace with the start omitted. Round 10 (DESIGN 5.19): collectors-typed - the four collectors into Vec / VecDeque / Array1 of i32, i64, usize, u64, u8, bool, f32, f64, String, Option<i64>; the optional collector with missing items only for types that have a null.".into(),
         bounds: json!({"B": bound, "L": max_len}),
         assumptions: vec!["float ranges on dyadic grids only (DESIGN 5.7)".into(), "the default Vec1::try_collect_from_iter (unwrap) of the instrumented container is not driven".into()],
         exhaustive: true,
